@@ -315,6 +315,10 @@ func runC08(p *Program, r *Report) {
 					}
 				}
 				c := "panic-site:" + short + "|" + msg
+				if key == "" && isExhaustiveStateDispatcher(p, f) {
+					r.OK("C08.R3", c, p.Pos(in.Pos()), "unreachable: the function dispatches on the tokenizer state and has a case for every declared state")
+					continue
+				}
 				if key != "" {
 					seenTriaged[key] = true
 					r.OK("C08.R3", c, p.Pos(in.Pos()), "triaged: "+triagedPanics[key])
@@ -635,4 +639,55 @@ func checkTreeEmptiedOnlyOnBodyFailure(p *Program, r *Report, rule string) {
 	if n == 0 {
 		r.Undec(rule, "template.escapeTemplate", p.Pos(et.Pos()), "no return path found")
 	}
+}
+
+// isExhaustiveStateDispatcher: f is the function that dispatches on the tokenizer state (instead of a table) and
+// every declared state constant reaches one of its transition functions, so that the statement after the switch
+// cannot be reached with a declared state.
+func isExhaustiveStateDispatcher(p *Program, f *ssa.Function) bool {
+	disp, _, err := stateDispatch(p)
+	if err != nil || len(disp) == 0 {
+		return false
+	}
+	tpk := p.Pkg("template")
+	stObj := tpk.Types.Scope().Lookup("state")
+	if stObj == nil {
+		return false
+	}
+	for v := range ConstNames(tpk, stObj.Type()) {
+		if disp[v] == nil {
+			return false
+		}
+	}
+	// f calls every dispatched function and tests the state of its context parameter
+	if len(f.Params) == 0 {
+		return false
+	}
+	tests := false
+	for _, b := range f.Blocks {
+		for _, in := range b.Instrs {
+			if v, ok := in.(ssa.Value); ok && isStateLoadOf(v, f.Params[0]) {
+				tests = true
+			}
+		}
+	}
+	if !tests {
+		return false
+	}
+	called := map[*ssa.Function]bool{}
+	for _, b := range f.Blocks {
+		for _, in := range b.Instrs {
+			if c, ok := in.(*ssa.Call); ok {
+				if g := staticCallee(c.Common()); g != nil {
+					called[g] = true
+				}
+			}
+		}
+	}
+	for _, g := range disp {
+		if !called[g] {
+			return false
+		}
+	}
+	return true
 }
